@@ -21,6 +21,7 @@ ASSUMPTIONS = [
     "allowed-child oracle: the name labels a transition on some path from the start state to an accepting state",
 ]
 REQUIRED = ["parents_whose_children_carry_tails", "parents_with_more_than_1000_children", "index_queries_on_parents_with_foreign_children", "every_count_cases", "candidates_with_a_prefix", "parents_with_more_than_60_children", "candidates_with_a_past", "stateful_queries", "index_cases", "restorable_cases", "foreign_refused", "allowed_true", "allowed_false", "sorted_cases"]
+THREAD_HAMMER = "full"      # (mode T side shards: the hammering threads also import, load and copy documents of their own)
 EXHAUSTIVE = {"quick": False, "thorough": False}
 
 
